@@ -65,7 +65,7 @@ impl Kind {
     }
 }
 
-const WRAPS: [&str; 13] = ["none", "macro", "macro-uninvoked", "if1", "if0", "interp", "loop", "loopdef", "macro-arg", "shadowed-first-segment", "expr-repeat", "macro-named-a", "macro-arg-same-name"];
+const WRAPS: [&str; 14] = ["none", "macro", "macro-uninvoked", "if1", "if0", "interp", "loop", "loopdef", "macro-arg", "shadowed-first-segment", "expr-positions", "expr-repeat", "macro-named-a", "macro-arg-same-name"];
 const FORMS: [&str; 5] = ["a", "super.a", "super.super.a", "s1.a", "s1.s2.a"];
 const LEVELS: [&str; 3] = ["root", "s1", "s2"];
 const IMPORTS: [&str; 6] = ["star", "named", "alias", "ns", "twice", "block"];
@@ -138,7 +138,7 @@ impl Spec {
 }
 
 pub fn catalogue(thorough: bool) -> Vec<Spec> {
-    let wraps: Vec<usize> = if thorough { (0..WRAPS.len()).collect() } else { vec![0, WRAPS.len() - 4, WRAPS.len() - 3, WRAPS.len() - 2, WRAPS.len() - 1] };
+    let wraps: Vec<usize> = if thorough { (0..WRAPS.len()).collect() } else { vec![0, WRAPS.len() - 3, WRAPS.len() - 1] };
     let kinds = [Kind::N, Kind::L, Kind::C];
     let mut out = vec![];
     for k0 in kinds {
@@ -459,6 +459,22 @@ impl Gen {
                 }
             }
             "expr-repeat" => self.use_block(f, ind, 0, path, level, path, w, false),
+            "expr-positions" => {
+                // the same path in the other places an expression can stand in (all of them resolve like the
+                // `.word` between the markers, which they follow directly)
+                self.use_block(f, ind, 0, path, level, path, w, false);
+                let pl = path.len() as u32;
+                let l = self.line(f, format!("{}.if {} == {} {{ nop }}", i, path, path));
+                self.path_occs(f, l, i.len() as u32 + 4, 0, path, level, path, w);
+                self.path_occs(f, l, i.len() as u32 + 4 + pl + 4, 0, path, level, path, w);
+                let l = self.line(f, format!("{}lda #<{}", i, path));
+                self.path_occs(f, l, i.len() as u32 + 6, 0, path, level, path, w);
+                let l = self.line(f, format!("{}.var vq = {} + 1", i, path));
+                self.path_occs(f, l, i.len() as u32 + 10, 0, path, level, path, w);
+                let l = self.line(f, format!("{}.align 1 + {} - {}", i, path, path));
+                self.path_occs(f, l, i.len() as u32 + 11, 0, path, level, path, w);
+                self.path_occs(f, l, i.len() as u32 + 11 + pl + 3, 0, path, level, path, w);
+            }
             "shadowed-first-segment" => {
                 // a plain label that is called like the first segment of a dotted path, nearer than the scope of
                 // that name: the whole path still means the outer one (the label has no members)
@@ -2072,7 +2088,7 @@ pub fn run(ctx: &Ctx, replay: Option<&Value>) -> i32 {
         "bound",
         json!({
             "levels": 3, "definition_kinds": ["none", "label", "const"], "path_forms": FORMS,
-            "wrappers": if ctx.tier.is_thorough() { WRAPS.to_vec() } else { vec!["none", "shadowed-first-segment", "expr-repeat", "macro-named-a", "macro-arg-same-name"] },
+            "wrappers": if ctx.tier.is_thorough() { WRAPS.to_vec() } else { vec!["none", "expr-repeat", "macro-arg-same-name"] },
             "orders": if c15 && !ctx.tier.is_thorough() { json!(["definitions-first"]) } else { json!(["definitions-first (all wrappers)", "uses-first (unwrapped use only)"]) },
             "imports": IMPORTS,
             "positions": if c15 { json!(["start", "middle", "end"]) } else { json!(["first char", "last char"]) },
